@@ -49,7 +49,7 @@ def gen_history(t, nops, pool, dimsets, link, bulk_big=False, removes=True, big_
     for _ in range(nops):
         k = t.weighted([('store', 6), ('store_many', 3), ('load', 2), ('load_many', 3), ('is_cached', 1),
                         ('remove', 2 if removes else 0), ('reopen', 1), ('remove_many', 1 if removes else 0), ('load_meta', 1),
-                        ('switch', 2)])
+                        ('switch', 2), ('clock', 1)])
         d = t.pick(dimsets)
         if k == 'store':
             ops.append(['store', t.pick(pool), d, gen_payload(t, link, big_payloads)])
@@ -73,6 +73,9 @@ def gen_history(t, nops, pool, dimsets, link, bulk_big=False, removes=True, big_
             ops.append(['load_meta', t.pick(pool), d])
         elif k == 'switch':
             ops.append(['switch'])
+        elif k == 'clock':
+            # the wall clock is stepped (NTP correction, VM resume) or simply time passes: no address may change
+            ops.append(['clock', t.pick([-5, -1, -3600, 1.5, 61, 3600, 86400])])
         else:
             ops.append(['reopen'])
     return ops
@@ -156,6 +159,8 @@ class Runner(object):
         self.in_mutation = False
         self.fault_in_call = False
         self.failed_keys = None     # addresses touched by an operation that raised an injected fault
+        self.clock = None           # the simulated clock, if the history may step it
+        self.call_seq = 0           # number of mutating calls started (a sticky fault lasts until its call returns)
 
     # -- primitive accessors ---------------------------------------------
     def _load1(self, coord, dims):
@@ -298,6 +303,10 @@ class Runner(object):
                 cache.cleanup()
             self.cache = self.handles[self.cur] = self.make()
             self.sweep(what)
+        elif kind == 'clock':
+            if self.clock is not None:
+                self.clock.now = max(1.0e9, self.clock.now + op[1])
+            self.sweep(what)
         elif kind == 'switch':
             # continue through the other cache object; the first one stays open (an idle worker of another process)
             self.cur ^= 1
@@ -313,6 +322,7 @@ class Runner(object):
         exactly the touched addresses to {old, new, missing}."""
         self.in_mutation = True
         self.fault_in_call = False
+        self.call_seq += 1
         try:
             fn()
         except Exception as ex:
@@ -356,6 +366,8 @@ def _opstr(op):
         return 'store_tiles dims=%s %s' % (op[1], [tuple(c) for c, p in op[2]])
     if k == 'load_many':
         return 'load_tiles dims=%s %s +%d filler' % (op[1], [tuple(c) for c in op[2]], op[3])
+    if k == 'clock':
+        return 'clock %+g s' % op[1]
     if k == 'remove_many':
         return 'remove_tiles dims=%s %s' % (op[1], [tuple(c) for c in op[2]])
     if k in ('load', 'is_cached', 'remove', 'load_meta'):
